@@ -92,7 +92,7 @@ Proof. vm_compute. reflexivity. Qed.
    each theorem says that the model's definition IS that expression, for all arguments.  A change of the expression in the code
    breaks the obligation even when no sampled input distinguishes old and new behaviour. *)
 Theorem C07_tie_region_value : forall ratio s pd,
-  region_value ratio s pd = let p := (pd / norm_profile_div)%Q in if Qeqb p 0 then 0%Q else norm_region ratio (inZ s) p.
+  (region_value ratio s pd == let p := (pd / norm_profile_div)%Q in if Qeqb p 0 then 0%Q else norm_region ratio (inZ s) p)%Q.
 Proof. exact norm_region_tied. Qed.
 Goal True. idtac "ASSUME C07_tie_region_value". Abort.
 Print Assumptions C07_tie_region_value.
